@@ -252,5 +252,349 @@ class PrunedSupport(Contract):
         return native('run_pruned_support()')
 
 
+
+# -------------------------------------------------------------------------------------- StructuredBasis.get_support
+
+class ARange(Vec):
+    """numpy.arange(lo, hi, dtype=int)"""
+
+    def __init__(self, lo, hi):
+        super().__init__('int', z3.If(hi > lo, hi - lo, 0), lambda i: lo + i, 'arange(%s,%s)' % (lo, hi))
+        self.lo, self.hi = lo, hi
+
+
+def np_arange(ctx, a, b=None, dtype=None):
+    if b is None:
+        return Numpy().np_arange(ctx, a)
+    if not (is_intlike(a) and is_intlike(b)):
+        raise Unsupported('numpy.arange variant')
+    return ARange(zint(a), zint(b))
+
+
+class VecList(Sym):
+    """A Python list of 1-D int arrays of symbolic length, grown by append inside an invariant-carrying loop: n items, item k has
+    LEN(k) entries EL(k, j).  Ghost POS(k, e): the position of e in item k, maintained at append for aranges (specification only)."""
+
+    def __init__(self, n, len_f, el_f, pos_f, name='list-of-arrays'):
+        self.n, self.len_f, self.el_f, self.pos_f, self.name = n, len_f, el_f, pos_f, name
+
+    @staticmethod
+    def fresh(ctx, name):
+        n = ctx.int('len(%s)' % name, report=False)
+        return VecList(n, z3.Function(ctx.name(name + '.len'), I, I), z3.Function(ctx.name(name + '.el'), I, I, I), z3.Function(ctx.name(name + '.pos'), I, I, I), name)
+
+    def length(self, ctx):
+        return SInt(self.n)
+
+    def truth(self, ctx):
+        return self.n > 0
+
+    def getattr(self, ctx, name):
+        if name == 'append':
+            def append(ctx, v):
+                if not (isinstance(v, Vec) and v.kind == 'int'):
+                    raise Unsupported('append of %r to a list of int arrays' % (v,))
+                n, L, E, P = self.n, self.len_f, self.el_f, self.pos_f
+                vs, vn = v.frozen_sel(), v.n
+                if isinstance(v, ARange):
+                    lo = v.lo
+                    np_ = lambda e: e - lo
+                else:
+                    g = z3.Function(ctx.name('pos-in-appended'), I, I)
+                    np_ = lambda e: g(e)
+                self.len_f = lambda k: z3.If(k == n, vn, L(k))
+                self.el_f = lambda k, j: z3.If(k == n, vs(j), E(k, j))
+                self.pos_f = lambda k, e: z3.If(k == n, np_(e), P(k, e))
+                self.n = n + 1
+            return append
+        raise Unsupported('list.%s on a list of arrays' % name)
+
+
+def np_concatenate(ctx, items, axis=0, **kw):
+    """numpy.concatenate(list of 1-D int arrays): ValueError for an empty list; the items of the result are exactly the items of the
+    arrays (Skolem witnesses).  The ORDER and the multiplicities are not specified by this axiom (sound, incomplete)."""
+    if isinstance(items, list) and all(isinstance(v, Vec) and v.kind == 'int' for v in items):
+        vl = VecList(z3.IntVal(0), lambda k: z3.IntVal(0), lambda k, j: z3.IntVal(0), lambda k, e: z3.IntVal(0), 'list')
+        for v in items:
+            vl.getattr(ctx, 'append')(ctx, v)
+        items = vl
+    if kw or axis != 0 or not isinstance(items, VecList):
+        raise Unsupported('numpy.concatenate variant')
+    if not ctx.branch(items.n >= 1):
+        raise PyRaise('ValueError', note='need at least one array to concatenate')
+    c = Vec.fresh(ctx, 'concatenate', 'int', report=False)
+    sk, sm = z3.Function(ctx.name('concat.item'), I, I), z3.Function(ctx.name('concat.src'), I, I)
+    cp = z3.Function(ctx.name('concat.pos'), I, I, I)
+    L, E, n = items.len_f, items.el_f, items.n
+    ax = 'numpy.concatenate(list of 1-D int arrays): every entry of the result is an entry of one of the arrays and every entry of every array occurs (Skolem witnesses); ValueError for an empty list'
+    ctx.assume(qforall(1, lambda j: z3.Implies(z3.And(0 <= j, j < c.n), z3.And(0 <= sk(j), sk(j) < n, 0 <= sm(j), sm(j) < L(sk(j)), c.sel(j) == E(sk(j), sm(j))))), axiom=ax)
+    ctx.assume(qforall(2, lambda k, m: z3.Implies(z3.And(0 <= k, k < n, 0 <= m, m < L(k)), z3.And(0 <= cp(k, m), cp(k, m) < c.n, c.sel(cp(k, m)) == E(k, m)))))
+    return c
+
+
+class ScaledVec(Vec):
+    """u * factor, remembering the factorisation"""
+
+    def __init__(self, u, factor):
+        us = u.frozen_sel()
+        super().__init__('int', u.n, lambda i: us(i) * factor, '%s*%s' % (u.name, factor))
+        self.u, self.factor = u, factor
+
+
+class UVec(Vec):
+    def binop(self, ctx, op, other, reflected):
+        if op == '*' and is_intlike(other):
+            f = zint(other)
+            if not z3.is_int_value(z3.simplify(f)):
+                # intermediate lemma (proved, then used): scaling by a positive factor keeps gaps: u[a] < u[b] => u[a]*f + f <= u[b]*f
+                me = self
+                ctx.lemma('scaling-by-a-positive-factor-is-strictly-monotone', qforall(2, lambda a, b: z3.Implies(
+                    z3.And(0 <= a, a < me.n, 0 <= b, b < me.n, f >= 1, me.sel(a) < me.sel(b)), me.sel(a) * f + f <= me.sel(b) * f)))
+            return ScaledVec(self, f)
+        return super().binop(ctx, op, other, reflected)
+
+
+def np_unique_u(ctx, v, **kw):
+    u = npsets.np_unique(ctx, v, **kw)
+    return UVec('int', u.n, u._sel, u.name)
+
+
+class NdOuter(Sym):
+    """functools.reduce(numpy.add.outer, [v0, .., vr]) and its .ravel(): MULTI-INDEX representation, value(p0..pr) = sum_i v_i[p_i];
+    a flat position is the row-major rank of its multi-index (definition of ravel), as in contracts/evalsem.py"""
+
+    def __init__(self, axes):
+        self.axes = list(axes)
+
+    def getattr(self, ctx, name):
+        if name == 'ravel':
+            return lambda ctx: self
+        if name == 'ndim':
+            return len(self.axes)
+        raise Unsupported('n-d array .%s' % name)
+
+    def as_array(self, ctx):
+        return self
+
+
+class AddUfunc:
+    def sym_getattr(self, ctx, name):
+        if name == 'outer':
+            def outer(ctx, a, b):
+                if not (isinstance(b, Vec) and b.kind == 'int' and (isinstance(a, NdOuter) or (isinstance(a, Vec) and a.kind == 'int'))):
+                    raise Unsupported('numpy.add.outer(%r, %r)' % (a, b))
+                return NdOuter((a.axes if isinstance(a, NdOuter) else [a]) + [b])
+            return outer
+        raise Unsupported('numpy.add.' + name)
+
+
+class FunctoolsFold:
+    """functools.reduce over a concrete-length sequence: the left fold"""
+
+    def sym_getattr(self, ctx, name):
+        if name == 'reduce':
+            def reduce(ctx, fn, seq, *initial):
+                items = list(ops.iterate(ctx, seq))
+                if initial:
+                    items = [initial[0]] + items
+                if not items:
+                    raise PyRaise('TypeError', note='reduce() of empty iterable with no initial value')
+                acc = items[0]
+                for x in items[1:]:
+                    acc = ctx.interp.call(fn, [acc, x], {})
+                return acc
+            return reduce
+        raise Unsupported('functools.' + name)
+
+
+class StructuredSupport(Contract):
+    prop = PROP
+    fn = 'function:StructuredBasis.get_support'
+
+    def __init__(self, r, inrange=True):
+        self.r, self.inrange = r, inrange
+        self.label = 'axes=%d' % r + ('' if inrange else '+out-of-range')
+        self.bounded = '%d tensor axes (bound: 1..3); element counts, dof counts, start/stop tables, number of periodic images and the dof symbolic' % r
+        self.expect_return = inrange
+        C = self
+
+        def inv(cx, env):
+            S = C.S
+            st = env.lookup('start_dofs_i')
+            ax = [i for i in range(r) if S.start[i] is st]
+            if len(ax) != 1 or env.lookup('stop_dofs_i') is not S.stop[ax[0]]:
+                raise Unsupported('periodic-image loop over unknown tables')
+            i = ax[0]
+            T, start, stop, IMG = S.T[i], S.start[i], S.stop[i], S.IMG[i]
+            x = zint(env.lookup('dof_i'))
+            sup = env.lookup('supports_i')
+            if isinstance(sup, list):
+                if sup:
+                    raise Unsupported('supports_i is a non-empty concrete list')
+                return x == IMG(z3.IntVal(0))
+            if not isinstance(sup, VecList):
+                raise Unsupported('supports_i is %r' % (sup,))
+            K, LEN, EL, POS = sup.n, sup.len_f, sup.el_f, sup.pos_f
+            return z3.And(K >= 0, x == IMG(K),
+                          qforall(2, lambda k, j: z3.Implies(z3.And(0 <= k, k < K, 0 <= j, j < LEN(k)),
+                                                             z3.And(0 <= EL(k, j), EL(k, j) < T, start.sel(EL(k, j)) <= IMG(k), IMG(k) < stop.sel(EL(k, j))))),
+                          qforall(2, lambda k, e: z3.Implies(z3.And(0 <= k, k < K, 0 <= e, e < T, start.sel(e) <= IMG(k), IMG(k) < stop.sel(e)),
+                                                             z3.And(0 <= POS(k, e), POS(k, e) < LEN(k), EL(k, POS(k, e)) == e))))
+
+        def on_exit(cx, env, how):
+            if how != 'guard':
+                return
+            S = C.S
+            st = env.lookup('start_dofs_i')
+            ax = [i for i in range(r) if S.start[i] is st]
+            sup = env.lookup('supports_i')
+            if len(ax) == 1 and isinstance(sup, VecList):
+                i = ax[0]
+                T, start, stop, IMG, K = S.T[i], S.start[i], S.stop[i], S.IMG[i], sup.n
+                # intermediate lemma (proved, then used): the images not collected lie beyond every element (stop is non-decreasing, images too)
+                cx.lemma('axis%d:every-image-inside-an-element-was-collected' % i, qforall(2, lambda e, t: z3.Implies(z3.And(0 <= e, e < T, t >= 0, start.sel(e) <= IMG(t), IMG(t) < stop.sel(e)), t < K)))
+        self.loops = {0: Loop(inv, label='images', match='while dof_i <', havoc={'supports_i': lambda cx, env: VecList.fresh(cx, 'supports_i')}, on_exit=on_exit)}
+
+    def setup(self, cx):
+        r = self.r
+        T = [cx.int('transforms_shape%d' % i) for i in range(r)]
+        N = [cx.int('dofs_shape%d' % i) for i in range(r)]
+        start = [Vec.fresh(cx, '_start_dofs%d' % i, 'int', n=T[i], probes=2) for i in range(r)]
+        stop = [Vec.fresh(cx, '_stop_dofs%d' % i, 'int', n=T[i], probes=2) for i in range(r)]
+        IMG = [z3.Function('image%d' % i, I, I) for i in range(r)]
+        INAX = [z3.Function('has_image%d' % i, I, B) for i in range(r)]
+        TW = [z3.Function('has_image%d.t' % i, I, I) for i in range(r)]
+        d = [cx.int('d%d' % i) for i in range(r)]
+        # self.ndofs == prod_i N_i (established by StructuredBasis.__init__, contract in C12_ctor); kept as ONE symbol so that the
+        # obligations stay linear: what is used of the product are the two mixed-radix facts below
+        nd = cx.int('ndofs')
+        S = State(T=T, N=N, start=start, stop=stop, IMG=IMG, INAX=INAX, d=d, nd=nd)
+        self.S = S
+        for i in range(r):
+            # class invariant (as built by StructuredTopology._basis_spline): at least one element / dof per axis, the tables are
+            # non-decreasing and the last stop reaches the number of dofs
+            cx.assume(z3.And(T[i] >= 1, N[i] >= 1))
+            cx.assume(sorted_nondecreasing(start[i]))
+            cx.assume(sorted_nondecreasing(stop[i]))
+            cx.assume(stop[i].sel(T[i] - 1) >= N[i])
+            # periodic images of the digit d_i: x_0 = d_i, x_{t+1} = x_t + N_i (definition), non-decreasing (L-MONO)
+            im = IMG[i]
+            cx.assume(im(z3.IntVal(0)) == d[i])
+            from pyvc import nparr
+            if nparr.BOUND is None:
+                t_ = z3.Int('t!image%d' % i)  # instantiated only for terms image(x + 1): no matching loop
+                cx.assume(z3.ForAll([t_], z3.Implies(t_ >= 0, im(t_ + 1) == im(t_) + N[i]), patterns=[im(t_ + 1)]))
+            else:
+                cx.assume(qforall(1, lambda t, i=i, im=im: z3.Implies(t >= 0, im(t + 1) == im(t) + N[i])))
+            cx.assume(qforall(2, lambda t, u, im=im: z3.Implies(z3.And(0 <= t, t <= u), im(t) <= im(u))), axiom='L-MONO: the periodic images x_0 = d, x_{t+1} = x_t + N (N >= 1) are non-decreasing')
+            # has_image_i(e)  <=>  some image of d_i lies in [start_i[e], stop_i[e])   (Skolemised definition)
+            cx.assume(qforall(2, lambda e, t, i=i, im=im: z3.Implies(z3.And(t >= 0, start[i].sel(e) <= im(t), im(t) < stop[i].sel(e)), INAX[i](e))))
+            cx.assume(qforall(1, lambda e, i=i, im=im: z3.Implies(INAX[i](e), z3.And(TW[i](e) >= 0, start[i].sel(e) <= im(TW[i](e)), im(TW[i](e)) < stop[i].sel(e)))))
+        D = cx.int('dof')
+        S.D = D
+        cx.assume(nd >= 1)
+        if self.inrange:
+            for i in range(r):
+                cx.assume(z3.And(0 <= d[i], d[i] < N[i]))
+            Dn = d[0]
+            pref = [d[0]]
+            for i in range(1, r):
+                Dn = Dn * N[i] + d[i]
+                pref.append(Dn)
+            S.pref = pref
+            cx.assume(z3.And(0 <= Dn, Dn < nd), axiom='mixed-radix numbers: digits 0 <= d_i < N_i give 0 <= sum_i d_i * prod_{j>i} N_j < prod_i N_i = ndofs')
+            cx.assume(z3.If(D < 0, D + nd, D) == Dn, axiom='every 0 <= n < prod_i N_i has mixed-radix digits (L-DIVMOD)')
+        else:
+            cx.assume(z3.Not(z3.And(-nd <= D, D < nd)))
+
+        def divmod_(ctx, a, b):
+            if not (is_intlike(a) and is_intlike(b)):
+                raise Unsupported('divmod(%r, %r)' % (a, b))
+            if not ctx.branch(zint(b) != 0):
+                raise PyRaise('ZeroDivisionError')
+            if self.inrange:
+                # L-DIVMOD: divmod(q*n + r, n) = (q, r) for 0 <= r < n, used for the dof digits of the specification
+                for i in range(r):
+                    q0 = S.pref[i - 1] if i else z3.IntVal(0)
+                    if ctx.entails(z3.And(zint(a) == q0 * N[i] + d[i], zint(b) == N[i])):
+                        ctx.used_axioms.add('L-DIVMOD: divmod(q*n + r, n) = (q, r) for 0 <= r < n (ground instances for the dof digits)')
+                        return (SInt(q0), SInt(d[i]))
+            from pyvc.pybuiltins import divmod_char
+            q, rem = divmod_char(ctx, a, b)
+            return (SInt(q), SInt(rem))
+
+        def asarray(ctx, x, dtype=None):
+            axes = x.axes if isinstance(x, NdOuter) else [x] if isinstance(x, Vec) else None
+            if axes is not None and len(axes) == r:
+                for i, v in enumerate(axes):
+                    u = v.u if isinstance(v, ScaledVec) else v
+                    # intermediate lemma (proved, then used by the ordering clause)
+                    ctx.lemma('axis%d:listed-elements-in-range' % i, u.forall(lambda a, e, i=i: z3.And(0 <= e, e < T[i])))
+            return Numpy().np_asarray(ctx, x, dtype)
+
+        class Builtins:
+            def sym_getattr(self, ctx, name):
+                if name == 'divmod':
+                    return divmod_
+                raise Unsupported('builtins.' + name)
+        me = SObj('StructuredBasis', attrs=dict(_start_dofs=tuple(start), _stop_dofs=tuple(stop), _dofs_shape=tuple(SInt(n) for n in N),
+                                                _transforms_shape=tuple(SInt(t) for t in T), ndofs=SInt(nd)))
+        S.args = (me, SInt(D))
+        S.globals = {'numeric': Numeric(), 'isint': lambda ctx, x: is_intlike(x), 'builtins': Builtins(), 'functools': FunctoolsFold(),
+                     'numpy': Numpy(extra={'arange': np_arange, 'concatenate': np_concatenate, 'unique': np_unique_u, 'add': AddUfunc(), 'asarray': asarray})}
+        return S
+
+    def raises(self, cx, S, e):
+        if e.exc.split(':')[0] != 'IndexError':
+            return False
+        return z3.Not(z3.And(-S.nd <= S.D, S.D < S.nd))
+
+    def ensures(self, cx, S, result):
+        r = self.r
+        if not self.inrange:
+            return [('must-raise-IndexError', z3.BoolVal(False))]
+        axes = result.axes if isinstance(result, NdOuter) else [result] if isinstance(result, Vec) and result.kind == 'int' else None
+        if axes is None:
+            raise Unsupported('returned %r' % (result,))
+        if len(axes) != r:
+            return [('one-result-axis-per-tensor-axis', z3.BoolVal(False))]
+        U, F = [], []
+        for v in axes:
+            if isinstance(v, ScaledVec):
+                U.append(v.u)
+                F.append(v.factor)
+            else:
+                U.append(v)
+                F.append(z3.IntVal(1))
+        stride = []
+        for i in range(r):
+            s = z3.IntVal(1)
+            for j in range(i + 1, r):
+                s = s * S.T[j]
+            stride.append(z3.simplify(s))
+        out = [('one-result-axis-per-tensor-axis', z3.BoolVal(True)),
+               ('element-number-is-row-major', z3.And(*[F[i] == stride[i] for i in range(r)]))]
+        for i in range(r):
+            u, T, INAX = U[i], S.T[i], S.INAX[i]
+            out += [('axis%d:listed-elements-have-an-image-of-the-dof-digit' % i, u.forall(lambda a, e: z3.And(0 <= e, e < T, INAX(e)))),
+                    ('axis%d:every-element-with-an-image-of-the-dof-digit-is-listed' % i, qforall(1, lambda e: z3.Implies(z3.And(0 <= e, e < T, INAX(e)), qexists(1, lambda a: z3.And(0 <= a, a < u.n, u.sel(a) == e))))),
+                    ('axis%d:strictly-increasing' % i, npsets.strictly_increasing(u))]
+        # flat order = lexicographic order of the multi-index; the value is sum_i U_i[p_i] * stride_i
+        val = lambda *p: z3.Sum(*[axes[i].sel(p[i]) for i in range(r)]) if r > 1 else axes[0].sel(p[0])
+        rng = lambda *p: z3.And(*[z3.And(0 <= p[i], p[i] < axes[i].n) for i in range(r)])
+
+        for i in range(r):
+            # flat order = lexicographic order: split by the axis of the first difference
+            def first_diff(*pq, i=i):
+                p, q = pq[:r], pq[r:]
+                return z3.Implies(z3.And(rng(*p), rng(*q), *([p[j] == q[j] for j in range(i)] + [p[i] < q[i]])), val(*p) < val(*q))
+            out.append(('result-strictly-increasing:first-difference-at-axis%d' % i, qforall(2 * r, first_diff)))
+        return out
+
+    def replay(self, ob):
+        return native('run_structured_support(%d)' % min(self.r, 2))
+
+
 def contracts():
-    return [SortedIndex('contains'), SortedIndex('None'), SortedIndex('int'), SortedIndex('mask'), PrunedSupport()]
+    return [SortedIndex('contains'), SortedIndex('None'), SortedIndex('int'), SortedIndex('mask'), PrunedSupport(),
+            StructuredSupport(1), StructuredSupport(2), StructuredSupport(1, inrange=False), StructuredSupport(2, inrange=False)]
